@@ -625,7 +625,7 @@ func Main(prop string) {
 
 func run(c *enum.Ctx, prop string) {
 	if prop == "C08" {
-		c.Rule("alphabet '-ac' (gap first): every ordered pair of non-empty sequences of length <=3 over {a,c}; every 3x3 matrix with substitution entries in {-1,0,1} and the four gap entries in {0,-1}; gap-open in {0,-1,-2}; the six aligners; a third of the matrices reach the aligner in a matrix value that earlier alignments used with other contents (rewritten in place), a fifth embedded in a matrix two rows/columns larger than the alphabet (extra cells 55), a fifth as a copy-on-write edit of a block-allocated matrix (outer rows views of one block, inner rows replaced), and one goroutine sweeps every 7th matrix through a single matrix value, all aligners applied again after each rewrite (thorough: lengths <=4, substitution entries in {-2..2} on a sliced sub-grid, gap entries {0,-1,-2}, and the alphabet '-acg' with lengths <=2; lengths 5 on every 40th matrix of the small grid); alphabets '-acgtn' (thorough also gap + 20 letters) with two asymmetric all-different matrices and every pair of sequences of length <=2; a fixed word of 260 / 520 letters over '-acgt' against itself with one letter inserted or deleted at every position around 256 / 512 and with blocks of 63..129 letters missing from either side, all aligners, on one goroutine; every pair of words of length <=3 over '-ac' that holds the gap letter itself, on a slice of the matrices with the gap/gap cell 0 and -1; every word pair on a few matrices directly after a REJECTED call (illegal letter at each position of either sequence, ragged matrix sharing the rows of the good one, mixed sequence types, distinct alphabet objects) on the same goroutine; oracle: the score of the RETURNED PATH recomputed from the letters equals the optimum of an independent reference DP (global / local / whole-query-ending-at-the-same-reference-position; affine: three-state with and without gap-to-gap transitions so that the two defect classes are told apart); non-trivial = cases whose optimal alignment contains at least one gap or mismatch")
+		c.Rule("alphabet '-ac' (gap first): every ordered pair of non-empty sequences of length <=3 over {a,c}; every 3x3 matrix with substitution entries in {-1,0,1} and the four gap entries in {0,-1}; gap-open in {0,-1,-2}; the six aligners; a third of the matrices reach the aligner in a matrix value that earlier alignments used with other contents (rewritten in place), a fifth embedded in a matrix two rows/columns larger than the alphabet (extra cells 55), a fifth as a copy-on-write edit of a block-allocated matrix (outer rows views of one block, inner rows replaced), and one goroutine sweeps every 7th matrix through a single matrix value, all aligners applied again after each rewrite (thorough: lengths <=4, substitution entries in {-2..2} on a sliced sub-grid, gap entries {0,-1,-2}, and the alphabet '-acg' with lengths <=2; lengths 5 on every 40th matrix of the small grid); alphabets '-acgtn' (thorough also gap + 20 letters) with two asymmetric all-different matrices and every pair of sequences of length <=2; a fixed word of 260 / 520 letters over '-acgt' against itself with one letter inserted or deleted at every position around 256 / 512 and with blocks of 63..129 letters missing from either side, all aligners, on one goroutine; a word against itself with a block of every length 1..300 missing from either side; matrices with entries of +-2^30 and +-2^40; every pair of words of length <=3 over '-ac' that holds the gap letter itself, on a slice of the matrices with the gap/gap cell 0 and -1; every word pair on a few matrices directly after a REJECTED call (illegal letter at each position of either sequence, ragged matrix sharing the rows of the good one, mixed sequence types, distinct alphabet objects) on the same goroutine; oracle: the score of the RETURNED PATH recomputed from the letters equals the optimum of an independent reference DP (global / local / whole-query-ending-at-the-same-reference-position; affine: three-state with and without gap-to-gap transitions so that the two defect classes are told apart); non-trivial = cases whose optimal alignment contains at least one gap or mismatch")
 	} else {
 		c.Rule("every alignment produced in C08's space: monotone abutting path of equal-length blocks, one-sided gaps and empty zero-score pairs; global spans both sequences, local/fitted within bounds; per maximal run the reported scores equal the score recomputed from letters, matrix and gap parameters (gap-open once per run); plain and quality letters give identical pairs; align.Format gives two equal-length rows that reduce to the aligned sub-sequences, over quality-carrying sequences the same letters; the pairs turned round with Invert after they have been read describe the same path with the sides exchanged (Features and Format), and turned round twice are what they were; plus ill-typed calls (an illegal letter at every position of either sequence, distinct alphabet objects, mixed Letters/QLetters, nil alphabet, alphabet without leading gap, ragged / non-square / undersized / empty matrices, among them every shape of 1..5 rows with each row as long as the row count or one off it) which must return an error and never panic; non-trivial = all")
 	}
@@ -998,6 +998,35 @@ func run(c *enum.Ctx, prop string) {
 				// aligner (what the first leaves behind is wrong for the second)
 				for _, q := range []pr{p, {word(257+pi%2, 1000+pi), word(257+(pi/2)%2, 2000+pi)}} { // the second table fits in the first
 					k := Case{Aligner: al, R: q.r, Q: q.q, Letters: d, M: M, Open: -2}
+					c.Doing(0, k)
+					c.Eval()
+					report(c, prop, k, evaluate(k))
+					n++
+				}
+			}
+		}
+		// a gap run of EVERY length 1..300 (cut-offs in the rendering of gaps need not be round numbers): a
+		// word against itself with that many letters missing, on either side; and scores far beyond 32 bits
+		for g := 1; g <= 300; g++ {
+			W := word(g+24, 5000+g)
+			for ai, al := range aligners {
+				if (g+ai)%3 != 0 && g%60 > 2 && g%50 > 2 && g%64 > 2 {
+					continue // every aligner at every third length, all of them around the multiples of 50, 60, 64
+				}
+				for _, q := range []pr{{W, W[:12] + W[12+g:]}, {W[:12] + W[12+g:], W}} {
+					k := Case{Aligner: al, R: q.r, Q: q.q, Letters: d, M: M1, Open: -2}
+					c.Doing(0, k)
+					c.Eval()
+					report(c, prop, k, evaluate(k))
+					n++
+				}
+			}
+		}
+		for _, big := range []int{1 << 30, 1 << 40} {
+			MB := [][]int{{0, -big / 2, -big / 2, -big / 2, -big / 2}, {-big / 2, big, -big, -big, -big}, {-big / 2, -big, big, -big, -big}, {-big / 2, -big, -big, big, -big}, {-big / 2, -big, -big, -big, big}}
+			for _, al := range aligners {
+				for _, q := range []pr{{"acgtacgt", "acgtacgt"}, {"aaaa", "aaa"}, {"acgtta", "cgtt"}, {"ccacgtcc", "acgt"}, {"acgt", "tgca"}} {
+					k := Case{Aligner: al, R: q.r, Q: q.q, Letters: d, M: MB, Open: -big / 4}
 					c.Doing(0, k)
 					c.Eval()
 					report(c, prop, k, evaluate(k))
